@@ -45,6 +45,7 @@ Init0 ==
    pend1 |-> <<>>, pend2 |-> <<>>, awaitResend |-> FALSE, last1 |-> -1, last2 |-> -1, unkPartial |-> FALSE,
    inb |-> <<>>, inbId |-> <<>>, held |-> {}, owedAcks |-> <<>>, marks |-> {}, damaged |-> {}, diverged |-> FALSE,
    lastFail |-> FALSE, nstops |-> 0, closedEarly |-> FALSE, closeCalled |-> FALSE, altered |-> {}, sent0 |-> {},
+   frame |-> FALSE, sentSeq |-> <<>>, retSeq |-> <<>>, bigPending |-> -1,
    garbled |-> FALSE, ambig |-> {}, attemptOpen |-> FALSE, down |-> "no", downSure |-> FALSE, lwGot |-> <<>>, stalls |-> <<>>]
 
 (* ---------------------------------------------------------------------- *)
@@ -254,8 +255,10 @@ OnRead(m, e) ==
 (* ---------------------------------------------------------------------- *)
 (* broker side                                                             *)
 
-OnBrokerSend(m, e) ==
-  LET pk == e.pk IN
+OnBrokerSend(m0, e) ==
+  LET pk == e.pk
+      m == IF pk.t = "PUBLISH" /\ m0.frame THEN [m0 EXCEPT !.sentSeq = Append(@, <<pk.len, pk.sum>>)] ELSE m0
+  IN
   IF pk.t = "SUBACK" THEN R([m EXCEPT !.sacks = Put(@, pk.id, pk.codes)], {})
   ELSE IF pk.t = "PUBLISH" /\ pk.qos = 0 THEN R([m EXCEPT !.sent0 = @ \cup {pk.tag}], {})
   ELSE IF pk.t = "PUBLISH" /\ pk.qos > 0 THEN
@@ -372,6 +375,10 @@ OnCall(m, e) ==
       m1 == [m EXCEPT !.calls = Put(@, e.p, rec)]
   IN
   IF e.m \in {"Close", "Disconnect"} THEN R([m1 EXCEPT !.closeCalled = TRUE], {})
+  ELSE IF e.m = "ReadAll" THEN R([m1 EXCEPT !.bigPending = -1], {})
+  ELSE IF e.m = "ReadSlices" /\ m.frame /\ m.bigPending >= 0 THEN
+    \* the previous BigMessage was skipped: only its size is known
+    R([m1 EXCEPT !.retSeq = Append(@, <<m.bigPending, 0>>), !.bigPending = -1], {})
   ELSE IF e.m = "ReadSlices" THEN
     \* the application takes ownership of what the previous call returned
     R([m1 EXCEPT !.held = {},
@@ -433,7 +440,9 @@ OnRet(m, e) ==
         \* and, within one process, from the moment the application took ownership (no stop in between)
         again == got /\ id # 0 /\ m.inb[id].qos = 2 /\ m.inb[id].returned >= 1 /\ ~m.inb[id].cycleEnded
                  /\ (m.inb[id].id \in m.marks \/ (m.inb[id].owned /\ m.inb[id].ownedGen = m.gen))
-        m1 == [m0 EXCEPT !.rsClosed = @ \/ isClosed,
+        m1 == [m0 EXCEPT !.retSeq = IF m.frame /\ e.got THEN Append(@, <<e.len, e.sum>>) ELSE @,
+                         !.bigPending = IF m.frame /\ "big" \in cls THEN e.bigsize ELSE @,
+                         !.rsClosed = @ \/ isClosed,
                          \* an error while a connect attempt was open: the attempt failed (ErrDown from now on);
                          \* otherwise an established connection was lost (requests wait for the next attempt)
                          !.down = IF cls # {} /\ ~isClosed /\ "big" \notin cls THEN (IF m.attemptOpen THEN "yes" ELSE "no") ELSE @,
@@ -447,11 +456,13 @@ OnRet(m, e) ==
                    /\ m.inb[id].ownedGen = m.gen /\ m.inb[id].acks = 0
     IN R(m1, If(again, "C04_OncePerCycle") \cup If(unacked, "C07_AckBeforeRedelivery")
              \cup If(cl.afterClose /\ ~isClosed, "C12_ErrClosedAfter")
-             \cup If(got /\ id = 0 /\ e.tag \notin m.sent0 /\ ~m.hostile, "C06_ReturnedEqualsSent")
+             \cup If(got /\ id = 0 /\ e.tag \notin m.sent0 /\ ~m.hostile /\ ~m.frame, "C06_ReturnedEqualsSent")
              \* a BigMessage whose Size matches no message the broker sent
-             \cup If("big" \in cls /\ e.tag = 0 /\ ~m.hostile, "C06_ReturnedEqualsSent"))
+             \cup If("big" \in cls /\ e.tag = 0 /\ ~m.hostile /\ ~m.frame, "C06_ReturnedEqualsSent"))
   ELSE IF meth \in {"Close", "Disconnect"} THEN
     R([m0 EXCEPT !.closeRet = TRUE], common)
+  ELSE IF meth = "ReadAll" THEN
+    R([m0 EXCEPT !.retSeq = IF m.frame /\ cls = {} THEN Append(@, <<e.len, e.sum>>) ELSE @], common)
   ELSE R(m0, common)
 
 (* ---------------------------------------------------------------------- *)
@@ -498,9 +509,13 @@ OnFinal(m, e) ==
       left == {k \in RangeOf(e.keys) : LevelOfKey(k) > 0}
       lost == {t \in DOMAIN m.msgs : m.msgs[t].ret = "ok" /\ m.msgs[t].deliv = 0 /\ ~m.hostile /\ m.damaged = {}}
       unackedIn == {i \in DOMAIN m.inb : m.inb[i].returned > 0 /\ ~m.inb[i].done /\ ~m.hostile}
+      sameSeq == Len(m.retSeq) = Len(m.sentSeq)
+                 /\ \A i \in DOMAIN m.retSeq : m.retSeq[i][1] = m.sentSeq[i][1] /\ (m.retSeq[i][2] = 0 \/ m.retSeq[i][2] = m.sentSeq[i][2])
       notReset == {c \in DOMAIN m.conns : m.conns[c].mustReset /\ ~m.conns[c].closedByClient}
   IN R(m, If(m.phase = "epi" /\ m.closeRet /\ e.leaks # <<>>, "C12_NoLeak")
           \cup If(notReset # {}, "C13_ResetOnViolation")
+          \* framing runs: whatever the cuts and progress-making pauses, exactly the PUBLISH packets sent, in order, no reset
+          \cup If(m.frame /\ (e.reset \/ ~sameSeq), "C06_ReturnedEqualsSent")
           \cup If(m.phase = "epi" /\ m.closeRet /\ e.openconns # <<>>, "C12_NoLeak")
           \cup If(m.phase = "epi" /\ left # {} /\ ~m.hostile /\ m.damaged = {} /\ ~m.closedEarly, "C01_Drained")
           \cup If(m.phase = "epi" /\ lost # {} /\ ~m.closedEarly, "C01_Delivered")
@@ -522,7 +537,8 @@ OnGate(m, e) ==
 
 ObsStep(m, e) ==
   CASE e.e = "begin" -> R([Init0 EXCEPT !.gen = 1, !.amax = IF e.amax < 0 \/ e.amax > IdMod THEN IdMod ELSE e.amax,
-                                       !.emax = IF e.emax < 0 \/ e.emax > IdMod THEN IdMod ELSE e.emax, !.clean = e.clean], {})
+                                       !.emax = IF e.emax < 0 \/ e.emax > IdMod THEN IdMod ELSE e.emax, !.clean = e.clean,
+                                       !.frame = e.frame], {})
     [] e.e = "snap" -> R(m, IF m.phase = "epi" /\ ~m.closedEarly /\ m.damaged = {} /\ ~m.hostile
                                   /\ (e.q1 # Len(Pending(m, 1)) \/ e.q2 # Len(Pending(m, 2)))
                                THEN {"C17_QueueMatchesPending"} \cup If(m.refused # {}, "C14_PersistErrorNotEnqueued") ELSE {})
